@@ -209,7 +209,11 @@ func c20Run(c *vcore.Ctx) *vcore.Violation {
 	ct := &cgroup.Controllers{}
 	var ctrls []string
 	if mode == "v1" || mode == "fake1" {
-		for _, n := range []string{"cpu", "cpuacct", "memory", "pids"} {
+		names := []string{"cpu", "cpuacct", "memory", "pids"}
+		if mode == "v1" {
+			names = append(names, "cpuset") // (real hierarchy only: a new cpuset group takes its cpus and mems from its parent)
+		}
+		for _, n := range names {
 			if src.Bool(2, 3, "ctrl") {
 				ct.Set(n, true)
 				ctrls = append(ctrls, n)
@@ -542,6 +546,15 @@ func s4RelOf(h cgroup.Cgroup, prefix string) string {
 	return s[i : i+j]
 }
 
+// cpusetOnly: the controller set of a second handle (all controllers of the run)
+func cpusetOnly(ctrls []string) *cgroup.Controllers {
+	ct := &cgroup.Controllers{}
+	for _, n := range ctrls {
+		ct.Set(n, true)
+	}
+	return ct
+}
+
 func c20ProcAndLimits(c *vcore.Ctx, mode string, root cgroup.Cgroup, prefix string, ctrls []string) *vcore.Violation {
 	const prop = "C20"
 	src := c.Src
@@ -613,6 +626,42 @@ func c20ProcAndLimits(c *vcore.Ctx, mode string, root cgroup.Cgroup, prefix stri
 	if string(before) != string(after) {
 		return vcore.Violate(prop, "addproc_moved_other", mode, "AddProc of one pid moved another process")
 	}
+	if src.Bool(1, 3, "addproc_dead_pid_first") {
+		// a list whose first pid is gone already (a process that ended between a listing and the move): the call may
+		// fail, but if it reports success every live process of the list has been moved
+		dead := exec.Command(probePath, "exit", "0")
+		if err := dead.Start(); err == nil {
+			deadPid := dead.Process.Pid
+			dead.Wait()
+			g2, err := root.New("procs2")
+			if err != nil {
+				return vcore.Violate(prop, "new_failed", mode+"/sequential", "New(procs2) failed: %v", err)
+			}
+			aerr := g2.AddProc(deadPid, other)
+			defer g2.Destroy()
+			c.Fault("addproc_list_with_dead_pid")
+			if aerr == nil {
+				in := false
+				if ps, _ := g2.Processes(); len(ps) > 0 {
+					for _, p := range ps {
+						in = in || p == other
+					}
+				}
+				if !in {
+					return vcore.Violate(prop, "addproc_not_moved", mode+"/dead_pid_in_list", "AddProc(dead pid %d, live pid %d) returned nil but the live process was not moved", deadPid, other)
+				}
+			}
+			// (the second probe has served its purpose; an empty group can be removed)
+			cmds[1].Process.Kill()
+			cmds[1].Wait()
+			for i := 0; i < 100; i++ {
+				if ps, _ := g2.Processes(); len(ps) == 0 {
+					break
+				}
+				time.Sleep(2 * time.Millisecond)
+			}
+		}
+	}
 	pids, err := g.Processes()
 	if err != nil || len(pids) != 1 || pids[0] != target {
 		return vcore.Violate(prop, "processes_wrong", mode, "Processes() = %v, %v; expected [%d]", pids, err, target)
@@ -676,6 +725,31 @@ func c20ProcAndLimits(c *vcore.Ctx, mode string, root cgroup.Cgroup, prefix stri
 				}
 			}
 			c.Probe("two_handle_limit_history")
+		}
+		if has("cpuset") {
+			// a limit written through one handle is in force until somebody writes another one: making a second
+			// handle of the group (New on the existing name, OpenExisting) writes nothing
+			file := filepath.Join(cgBase, "cpuset", prefix, "procs", "cpuset.cpus")
+			if err := g.SetCPUSet([]byte("0")); err != nil {
+				return vcore.Violate(prop, "limit_failed", "cpuset", "SetCPUSet(0): %v", err)
+			}
+			if b, _ := os.ReadFile(file); strings.TrimSpace(string(b)) != "0" {
+				return vcore.Violate(prop, "limit_not_in_force", "cpuset", "cpuset.cpus written \"0\", in force %q", strings.TrimSpace(string(b)))
+			}
+			how := src.Pick("second_handle_via", "new", "open_existing")
+			var err2 error
+			if how == "new" {
+				_, err2 = root.New("procs")
+			} else {
+				_, err2 = cgroup.OpenExisting(filepath.Join(prefix, "procs"), cpusetOnly(ctrls))
+			}
+			if err2 != nil {
+				return vcore.Violate(prop, "new_failed", mode+"/second_handle", "a second handle of the existing group (%s) failed: %v", how, err2)
+			}
+			if b, _ := os.ReadFile(file); strings.TrimSpace(string(b)) != "0" {
+				return vcore.Violate(prop, "limit_not_in_force", "cpuset/second_handle", "cpuset.cpus was \"0\"; after a second handle of the group was made (%s) it is %q", how, strings.TrimSpace(string(b)))
+			}
+			c.Probe("cpuset_second_handle")
 		}
 		if has("cpuacct") {
 			if _, err := g.CPUUsage(); err != nil {
